@@ -1131,3 +1131,68 @@ fn pop_frame_blocked_puts_back(eos: bool) {
 }
 pub fn c01_pop_frame_blocked_puts_back_front() { pop_frame_blocked_puts_back(false) }
 pub fn c01_pop_frame_blocked_puts_back_front_eos() { pop_frame_blocked_puts_back(true) }
+
+/// NOT REGISTERED (measured: 40 k VCCs, symex 18 min, out of memory at 14 GB - the discard arm runs
+/// clear_queue + reclaim_all_capacity + a re-queue and a second loop iteration).
+/// pop_frame, *discard* arm (C17/C04/C16): a stream that was cancelled with an error code
+/// (scheduled reset, reason != NO_ERROR) still has a DATA frame queued.  The DATA is
+/// discarded, its capacity goes back to the connection, and the same call emits the
+/// RST_STREAM with the scheduled code (second loop iteration); the slot is released.
+/// With NO_ERROR the DATA must still be sent (RFC 9113 8.1: NO_ERROR only after a complete
+/// response).  Stream's deque: ghost (one DATA frame).
+fn pop_frame_cancelled_with_data(no_error: bool) {
+    let mut w = world(9);
+    let reason = {
+        let mut p = w.store.resolve(w.key);
+        if no_error {
+            st_h::set_scheduled_reset(&mut p.state, Reason::NO_ERROR);
+        }
+        match p.state.get_scheduled_reset() {
+            Some(r) => r,
+            None => panic!("shape 9 is the scheduled-reset state"),
+        }
+    };
+    kani::assume(no_error || reason != Reason::NO_ERROR);
+    let sz: usize = kani::any();
+    kani::assume(sz >= 1 && sz as u64 <= MAXW as u64);
+    unsafe {
+        buf_h::G_DATA = (0, sz, true);
+        buf_h::G_FRONT_PUTS = 0;
+    }
+    {
+        let mut p = w.store.resolve(w.key);
+        p.pending_send = buf_h::fake_nonempty();
+        p.is_pending_send = true;
+        store_h::queue_set_single(&mut w.prio.pending_send, w.key);
+    }
+    let pre = sym_pre(&mut w, Some(sz));
+    if no_error {
+        kani::assume(pre.a > 0);
+    }
+    let n_send0 = counts_h::get_counts(&w.counts).0;
+    let out = w.prio.pop_frame(&mut w.buffer, &mut w.store, 16_384, &mut w.counts);
+    let q = post(&mut w);
+    let p = w.store.resolve(w.key);
+    if no_error {
+        match &out {
+            Some(Frame::Data(d)) => assert!(d.payload().remaining() > 0),
+            _ => panic!("C04: DATA of a stream cancelled with NO_ERROR was not sent"),
+        }
+    } else {
+        match &out {
+            Some(Frame::Reset(r)) => assert!(r.stream_id() == StreamId::from(ID) && r.reason() == reason, "C17: RST_STREAM with another id/reason than scheduled"),
+            Some(_) => panic!("C17: DATA of a cancelled stream sent instead of the RST_STREAM"),
+            None => panic!("C17: nothing emitted for a cancelled stream"),
+        }
+        assert!(q.buffered == 0 && q.a == 0, "discarded DATA still accounted / capacity kept by a reset stream");
+        assert!(q.cw == pre.cw && q.w == pre.w, "windows charged although no DATA was emitted");
+        assert!(q.ca as i64 == pre.ca as i64 + pre.a as i64 && q.ca as i64 + pre.others == q.cw as i64, "C16.total: capacity of the discarded DATA leaked");
+        assert!(st_h::shape(&p.state) == 7 && !p.is_pending_send);
+        assert!(counts_h::get_counts(&w.counts).0 == n_send0 - 1, "C05: slot not released");
+    }
+    kani::cover!(true, "end");
+    std::mem::forget(out);
+    forget(w);
+}
+pub fn c17_pop_frame_cancelled_discards_data() { pop_frame_cancelled_with_data(false) }
+pub fn c17_pop_frame_cancelled_no_error_sends_data() { pop_frame_cancelled_with_data(true) }
